@@ -57,7 +57,7 @@ def main(argv):
         if not isinstance(p, DTensor) or not beq(p.to_local().detach(), loc(init_full[i])):
             out["violations"].append(f"harness: fully_shard layout of parameter {i} differs from torch.chunk semantics: local shape {tuple(p.to_local().shape)}")
     cfg = S["cfg"]
-    dcfg = ds.FullyShardShampooConfig() if S["mode"] == "fully" else HybridShardShampooConfig(device_mesh=mesh, num_trainers_per_group=S["G"], communication_dtype=getattr(ds.CommunicationDType, S["comm"]), communicate_params=S["communicate_params"])
+    dcfg = ds.FullyShardShampooConfig() if S["mode"] == "fully" else HybridShardShampooConfig(device_mesh=mesh, num_trainers_per_group=S.get("G_arg", S["G"]), communication_dtype=getattr(ds.CommunicationDType, S["comm"]), communicate_params=S["communicate_params"])
     if not out["violations"]:
         opt = G.build_optimizer(ds, torch, cfg, params, distributed_config=dcfg)
         twin_items = [(i, torch.nn.Parameter(loc(f).clone())) for i, f in enumerate(init_full) if loc(f).numel() > 0]
